@@ -79,6 +79,20 @@ def check_case(rep: Report, c: dict):
                 rep.violation({**key, "method": meth, "what": "log-det"},
                               f"{desc}.{meth}: log-det {ld} (shape {ld.shape}); the definition gives {eld} * ln 2 = "
                               f"{eld * comb.LN2}", {"case": c})
+    # Scan equals the Chain of its unstacked layers (the same leaves constructed one by one)
+    if q["k"] == "scan":
+        try:
+            from flowjax.bijections import Chain
+            ch = Chain([build.mk_aff(i, shape) for i in q["ids"]])
+            for meth in comb.METHODS:
+                a1 = jax.tree_util.tree_leaves(getattr(b, meth)(x, cnd))
+                a2 = jax.tree_util.tree_leaves(getattr(ch, meth)(x, cnd))
+                if not all(np.array_equal(np.asarray(u), np.asarray(v)) for u, v in zip(a1, a2)):
+                    rep.violation({**key, "method": meth, "what": "Scan != Chain of its unstacked layers"},
+                                  f"{desc}.{meth}: Scan gives {[np.asarray(u).tolist() for u in a1]}, the Chain of the same layers {[np.asarray(v).tolist() for v in a2]}")
+            rep.count(1, ("scan-vs-chain", desc))
+        except Exception as e:  # noqa: BLE001
+            rep.violation({**key, "what": "Scan vs Chain", "error": type(e).__name__}, f"{desc}: {type(e).__name__}: {e}")
     # Chain: merge_chains, indexing, slicing, iteration, length never change the function
     if q["k"] == "chain":
         try:
